@@ -608,9 +608,15 @@ def r14_12(ctx):
     f = ctx.repo.fn("columns:Columns.__rich_console__")
     m = f.module
     sites = []
-    for x in walk_local(f.node):
-        if isinstance(x, ast.Assign) and isinstance(x.targets[0], ast.Name) and any(isinstance(c, ast.Call) and norm(c.func) == "sum" for c in ast.walk(x.value)) and any(isinstance(c, ast.Call) and norm(c.func) == "len" for c in ast.walk(x.value)):
-            sites.append(x)
+    fam12 = [f] + [q for k_, q in m.functions.items() if k_.startswith("Columns.__rich_console__.<locals>.")]
+    for q in fam12:
+        sd12 = _sdf(q.node)
+        for x in walk_local(q.node):
+            if isinstance(x, ast.Assign) and isinstance(x.targets[0], ast.Name):
+                v12 = _inl(x.value, {k_: v_ for k_, v_ in sd12.items() if k_ != x.targets[0].id and any(isinstance(c, ast.Call) and norm(c.func) in ("len", "sum") for c in ast.walk(v_))})
+                if any(isinstance(c, ast.Call) and norm(c.func) == "sum" for c in ast.walk(v12)) and any(isinstance(c, ast.Call) and norm(c.func) == "len" for c in ast.walk(v12)):
+                    x = ast.copy_location(ast.Assign(targets=x.targets, value=v12), x)
+                    sites.append(x)
     if len(sites) != 1:
         raise AnalysisError(f"Columns.__rich_console__: expected one `total = sum(widths) + padding * (len(widths) - 1)`, found {len(sites)}")
     x = sites[0]
